@@ -305,12 +305,17 @@ static int load_slot(struct slot *s, char kind, unsigned long flags, const char 
     if (filters[ty] >= '0' && filters[ty] <= '3') hwloc_topology_set_type_filter(s->t, (hwloc_obj_type_t) ty, (enum hwloc_type_filter_e) (filters[ty] - '0'));
   if (hwloc_topology_set_flags(s->t, flags) < 0) goto fail;
   int err = 0;
+  /* lower-case kind: load in "userdata not decoded" mode (environment variable read by hwloc_topology_load; the mode is topology
+   * state that export consults later, so a duplicate must carry it) */
+  if (kind == 's' || kind == 'x') setenv("HWLOC_XML_USERDATA_NOT_DECODED", "1", 1);
   switch (kind) {
-  case 'S': err = hwloc_topology_set_synthetic(s->t, arg); break;
-  case 'X': err = hwloc_topology_set_xml(s->t, arg); break;
+  case 'S': case 's': err = hwloc_topology_set_synthetic(s->t, arg); break;
+  case 'X': case 'x': err = hwloc_topology_set_xml(s->t, arg); break;
   default: err = -1;
   }
-  if (err < 0 || hwloc_topology_load(s->t) < 0) goto fail;
+  if (err >= 0) err = hwloc_topology_load(s->t);
+  unsetenv("HWLOC_XML_USERDATA_NOT_DECODED");
+  if (err < 0) goto fail;
   recollect(s);
   /* opaque userdata on two thirds of the objects (must be copied verbatim) */
   for (unsigned i = 0; i < s->nobjs; i++) if (s->objs[i]->gp_index % 3) s->objs[i]->userdata = (void *) (uintptr_t) (0x10000 + s->objs[i]->gp_index);
@@ -797,6 +802,7 @@ int main(int argc, char **argv) {
     if (fm != 0 && rng_chance(60)) filters[19] = '1';          /* keep Misc objects so that insert_misc works */
     if (nsrcs && rng_chance(35)) { strcpy(arg, srcs[rng_below(nsrcs)].path); kind = 'X'; if (rng_chance(40)) flags |= 8; }
     else gen_synthetic(arg, sizeof arg);
+    if (rng_chance(25)) kind = (char) (kind + 32);             /* s / x: userdata-not-decoded mode */
     snprintf(line, sizeof line, "LOAD %c %lu %s %s", kind, flags, filters, arg);
     case_begin(); case_line(line);
     if (!mainw->s[0].t) { case_end(); continue; }
